@@ -2,8 +2,10 @@ package checks
 
 import (
 	"fmt"
+	"os"
 	"sort"
 	"strings"
+	"sync"
 
 	"github.com/tormoder/fit"
 
@@ -19,7 +21,7 @@ func registerC16() {
 		Level: "exploration",
 		Rule: "PRNG streams rich in unknown messages, unknown fields of known messages and developer fields, in five variants (intact, truncated at a PRNG offset, file CRC " +
 			"corrupted, data record on an undefined local type, a file type without container after a file_id with unlisted fields); each decoded under all 8 combinations of {logger, unknown fields, unknown messages} (options given in varying order, one of them sometimes twice) through a counting reader " +
-			"and a logger that formats every argument; decoded content, error text and bytes consumed must be identical across the 8 runs, the lists absent when their option is " +
+			"and a logger that formats every argument; every fourth stream also with the library's own WithStdLogger (os.Stderr pointed at the null device) before / between / after the two unknown-item options: same result as with the two options alone; decoded content, error text and bytes consumed must be identical across the 8 runs, the lists absent when their option is " +
 			"off, sorted, and equal to the model's counts (failing streams: at least the completed records, at most completed + the record in flight); family many: files with 5000 / 9000 / all (> 65000) distinct unknown message numbers, and with 6000 / 20000 distinct (known message, unlisted field number) pairs, one or two records each, and files in which one unknown field / one unknown message occurs in 70000 records: the lists must name every one of them with its exact count; family chains: 2-3 such streams concatenated and decoded by DecodeChained under the 8 option sets: every File of the chain must carry exactly its own file's lists; the logger is passed as values of several dynamic kinds (pointer, struct, func, array, *log.Logger); non-trivial: the model " +
 			"expects at least one unknown message and one unknown field; distinct by stream digest",
 		Assume: []string{
@@ -273,6 +275,37 @@ func c16Case(c *lib.Ctx, idx uint64) {
 			}
 		}
 	}
+	// round 13: the library's own logger option, WithStdLogger (it logs to os.Stderr, which is
+	// pointed at the null device for the duration of the call), placed before, between or after
+	// the two unknown-item options: a logger only adds log lines, so messages, error, bytes
+	// consumed and both unknown lists are those of the run with the two options alone.
+	if idx%4 == 3 {
+		pos := int(idx / 4 % 3)
+		two := []fit.DecodeOption{fit.WithUnknownFields(), fit.WithUnknownMessages()}
+		opts := append(append(append([]fit.DecodeOption{}, two[:pos]...), fit.WithStdLogger()), two[pos:]...)
+		r := lib.NewReader(b, chunker)
+		var f *fit.File
+		var derr error
+		var out lib.Outcome
+		withStderrDiscarded(func() { out = lib.Guard(func() { f, derr = fit.Decode(r, opts...) }) })
+		c.Eval()
+		if out.Panicked || out.Hang {
+			c.Violation(b, "Decode with WithStdLogger at position %d of the option list panicked/hung: %s\n%s", pos, out.Panic, out.Stack)
+			return
+		}
+		ct := lib.FileContent(f)
+		lib.BlankAccumulatedDistance(ct)
+		ref6 := all[6]
+		if contentKey(ct) != ref6.key || lib.ErrText(derr) != ref6.err || r.Pos != ref6.consumed {
+			c.Violation(b, "WithStdLogger at position %d of [WithUnknownFields WithUnknownMessages] changes the result: error %q vs %q, bytes consumed %d vs %d, messages equal: %v", pos, lib.ErrText(derr), ref6.err, r.Pos, ref6.consumed, contentKey(ct) == ref6.key)
+			return
+		}
+		if ct != nil && ref6.ct != nil && (fmt.Sprint(ct.UnknownFields, ct.HasUF) != fmt.Sprint(ref6.uf, ref6.hasUF) || fmt.Sprint(ct.UnknownMessages, ct.HasUM) != fmt.Sprint(ref6.um, ref6.hasUM)) {
+			c.Violation(b, "WithStdLogger at position %d of [WithUnknownFields WithUnknownMessages] removes or changes unknown-item information: fields %v (present %v) vs %v (present %v); messages %v (present %v) vs %v (present %v)", pos, ct.UnknownFields, ct.HasUF, ref6.uf, ref6.hasUF, ct.UnknownMessages, ct.HasUM, ref6.um, ref6.hasUM)
+			return
+		}
+		c.Count("runs_with_WithStdLogger", 1)
+	}
 	c.Count(fmt.Sprintf("variant_%d", variant), 1)
 	nf, nm := 0, 0
 	for _, u := range lower.UnknownFields {
@@ -497,4 +530,26 @@ func firstListDiff(a, b string) string {
 		lo = 0
 	}
 	return fmt.Sprintf("reported ...%s / expected ...%s", a[lo:minInt(len(a), i+40)], b[lo:minInt(len(b), i+40)])
+}
+
+var (
+	stderrMu   sync.Mutex
+	devNullOut *os.File
+)
+
+// withStderrDiscarded runs f while os.Stderr names the null device (WithStdLogger builds its
+// logger on os.Stderr at the moment the option is applied).
+func withStderrDiscarded(f func()) {
+	stderrMu.Lock()
+	defer stderrMu.Unlock()
+	if devNullOut == nil {
+		devNullOut, _ = os.OpenFile(os.DevNull, os.O_WRONLY, 0)
+	}
+	if devNullOut == nil {
+		return
+	}
+	saved := os.Stderr
+	os.Stderr = devNullOut
+	defer func() { os.Stderr = saved }()
+	f()
 }
